@@ -229,33 +229,126 @@ def make_l2_hook(invs: List[Tuple[str, str, str, str]], rename: Dict[str, str]):
 
 
 # ----------------------------------------------------------------------------
+def loopfree_paths_equal(fa: FuncInfo, fb: FuncInfo, rename_b: Dict[str, str], adapters) -> Optional[Tuple[bool, int]]:
+    """Two routines without loops, compared as functions from decisions to results: every path of each is executed
+    symbolically; whenever a path of one and a path of the other can be taken together (their conditions do not
+    contradict each other) they must return the same canonical value and perform the same stores.  For every input the
+    two paths actually taken are such a pair, so agreement on all pairs is agreement on all inputs.  -> (equal, number
+    of pairs compared), or None when a routine has a loop / cannot be executed symbolically."""
+    for f in (fa, fb):
+        if any(isinstance(n, (ast.While, ast.For, ast.Try, ast.With, ast.Yield)) for n in ast.walk(f.node)):
+            return None
+    from .rules_classes import MethodPaths
+    try:
+        ra = MethodPaths(fa, call_adapters=adapters).run().results
+        rb = MethodPaths(fb, rename=rename_b).run().results
+    except (Inconclusive, C.CanonError, Exception):
+        return None
+
+    def expand(results):
+        out = []
+        for v, conds, env_, stores, node in results:
+            if C.contradictory(conds):
+                continue
+            st = tuple((k, r[0], r[1], r[2]) for k, r in stores)
+            if v is not None and C.is_poly(v):
+                for v2, c2 in C.case_split(v, conds):
+                    out.append((v2, frozenset(c2), st))
+            else:
+                out.append((v, frozenset(conds), st))
+        return out
+    pa, pb = expand(ra), expand(rb)
+    if not pa or not pb or len(pa) * len(pb) > 40000:
+        return None
+    pairs = 0
+    for va, ca, sa in pa:
+        for vb, cb, sb in pb:
+            both = list(ca | cb)
+            if C.contradictory(both):
+                continue
+            pairs += 1
+            va2 = C.simplify_minmax(C.resolve_ifexp(va, both), both) if va is not None and C.is_poly(va) else va
+            vb2 = C.simplify_minmax(C.resolve_ifexp(vb, both), both) if vb is not None and C.is_poly(vb) else vb
+            if va2 != vb2 or sa != sb:
+                return False, pairs
+    return (pairs > 0), pairs
+
+
+def orderings_equal(fa: FuncInfo, fb: FuncInfo) -> Optional[Tuple[bool, int]]:
+    """Two three-argument routines that touch their arguments only through comparisons, min and max (the thresholded
+    interpolation of the coincidence window): their results depend on the weak ordering of the arguments only, so the
+    13 weak orderings of three values are an exact finite abstraction.  -> (same result on every ordering, 13), or None
+    when a routine does anything else."""
+    if len(fa.node.args.args) != 3 or len(fb.node.args.args) != 3:
+        return None
+    from .rules_coincidence import _weak_orderings, eval_interpolate
+    n = 0
+    for (a, b, t) in _weak_orderings(3):
+        ra = eval_interpolate(fa.node, a, b, t)
+        rb = eval_interpolate(fb.node, a, b, t)
+        if ra is None or rb is None:
+            return None
+        n += 1
+        if ra[1] != rb[1]:
+            return False, n
+    return True, n
+
+
 def alloc_fully_written(fi: FuncInfo, name: str, size: int) -> bool:
-    """`name` (np.empty(size), size a small constant) has every cell stored through a constant index by
-    unconditional top-level statements before the first compound statement that mentions it."""
+    """`name` (np.empty(size), size a small constant) has every cell stored through a constant index before it is
+    read: by unconditional statements, or in every arm of an if / elif / else (the cells written on all arms count),
+    in front of the first other compound statement that mentions it."""
     bld = IRBuilder()
     items = bld.build(fi.node.body)
-    written: Set[int] = set()
-    for it in items:
-        if it[0] == 'simple':
-            st = it[1]
-            if isinstance(st, ast.Assign):
-                for t in st.targets:
-                    if isinstance(t, ast.Subscript) and isinstance(t.value, ast.Name) and t.value.id == name \
-                            and isinstance(t.slice, ast.Constant) and isinstance(t.slice.value, int):
-                        # RHS must not read the array itself
-                        if not any(isinstance(x, ast.Name) and x.id == name for x in ast.walk(st.value)):
-                            written.add(t.slice.value)
+    full = set(range(size))
+
+    def mentions(node) -> bool:
+        return any(isinstance(x, ast.Name) and x.id == name for x in ast.walk(node))
+
+    def scan(seq, written: Set[int]):
+        """-> (cells certainly written after `seq`, False if the array is read while cells are missing, stopped)"""
+        for it in seq:
+            if it[0] == 'simple':
+                st = it[1]
+                if isinstance(st, ast.Assign):
+                    stored = False
+                    for t in st.targets:
+                        if isinstance(t, ast.Subscript) and isinstance(t.value, ast.Name) and t.value.id == name \
+                                and isinstance(t.slice, ast.Constant) and isinstance(t.slice.value, int):
+                            if not any(isinstance(x, ast.Name) and x.id == name for x in ast.walk(st.value)):
+                                written = written | {t.slice.value}
+                            stored = True
+                    if stored:
                         continue
-                # a read of the array in a later simple statement before all cells are written?
-                reads = any(isinstance(x, ast.Name) and x.id == name and isinstance(x.ctx, ast.Load)
-                            for x in ast.walk(st.value))
-                if reads and written != set(range(size)):
-                    return False
-        else:
-            mentions = any(isinstance(x, ast.Name) and x.id == name for x in ast.walk(it[-1]))
-            if mentions:
-                break
-    return written == set(range(size))
+                    reads = any(isinstance(x, ast.Name) and x.id == name and isinstance(x.ctx, ast.Load) for x in ast.walk(st.value))
+                    if reads and written != full:
+                        return written, False, True
+                elif mentions(st) and written != full:
+                    return written, False, True
+            elif it[0] == 'if':
+                if any(mentions(test) for test, _b, _n in it[1]) and written != full:
+                    return written, False, True
+                outs = []
+                for _test, body, _n in it[1]:
+                    w, okay, stopped = scan(body, set(written))
+                    if not okay:
+                        return written, False, True
+                    outs.append((w, stopped))
+                w, okay, stopped = scan(it[2], set(written))
+                if not okay:
+                    return written, False, True
+                outs.append((w, stopped))
+                written = set.intersection(*[w_ for w_, _ in outs])
+                if any(st_ for _, st_ in outs):
+                    return written, True, True
+            elif it[0] in ('def', 'import', 'assert'):
+                continue
+            else:
+                if mentions(it[-1]):
+                    return written, True, True
+        return written, True, False
+    w, okay, _stopped = scan(items, set())
+    return okay and w == full
 
 
 # ----------------------------------------------------------------------------
@@ -266,6 +359,17 @@ class SiblingEngine:
         self.repo = repo
         self.families, self.sites = discover_families(repo)
         self.helpers = helper_pairs(repo, self.families)
+        # the interpolation helper of get_tau is paired by role (the three-argument function called with MRTS last),
+        # so that the two copies may call it differently
+        try:
+            from .rules_coincidence import interpolate_copies
+            cps = interpolate_copies(repo)
+            px = [f for f in cps if repo.module(f.module).is_pyx]
+            py = [f for f in cps if not repo.module(f.module).is_pyx]
+            if len(px) == 1 and len(py) == 1 and px[0].name.split('.')[-1] != py[0].name.split('.')[-1]:
+                self.helpers.append((px[0], py[0]))
+        except Exception:
+            pass
         self.roles: Dict[str, MergeRoles] = {}
         self.role_obs: Dict[str, List[Ob]] = {}
         self.results: Dict[str, dict] = {}
@@ -395,6 +499,16 @@ class SiblingEngine:
             res['points'] = cmp.points
             res['mismatches'] = cmp.mismatches
             res['info'] = cmp.info
+            if cmp.mismatches:
+                pe_ = loopfree_paths_equal(pyx, py, ren_py, adapters)
+                if not (pe_ is not None and pe_[0]):
+                    pe_ = orderings_equal(pyx, py) or pe_
+                if pe_ is not None and pe_[0]:
+                    # decided on values instead: every pair of compatible paths returns the same value with the same stores
+                    res['mismatches'] = []
+                    res['points'] = max(res['points'], pe_[1])
+                    res['info'] = list(cmp.info) + [f"decided by path enumeration ({pe_[1]} compatible path pairs)"]
+                    cmp.alloc_kind_diffs = []
             # allocation kind differences must be harmless
             for cn, ka, kb, na, nb in cmp.alloc_kind_diffs:
                 kinds = {ka, kb}
@@ -426,6 +540,15 @@ class SiblingEngine:
             res['inconclusive'] = str(e)
         except C.CanonError as e:
             res['inconclusive'] = f"{title}: canonicaliser: {e}"
+        if res['inconclusive']:
+            pe_ = loopfree_paths_equal(pyx, py, ren_py, adapters)
+            if not (pe_ is not None and pe_[0]):
+                pe_ = orderings_equal(pyx, py) or pe_
+            if pe_ is not None and pe_[0]:
+                res['inconclusive'] = None
+                res['mismatches'] = []
+                res['points'] = pe_[1]
+                res['info'] = [f"decided by path enumeration ({pe_[1]} compatible path pairs)"]
         self.results[key] = res
         return res
 
